@@ -394,6 +394,20 @@ func runC16(c *Checker) {
 			okk := st.Parent() == flush || st.Parent() == wm
 			c.decide(okk, "FLUSH", fmt.Sprintf("pending-writer|%s|%s", f.Name(), fnName(st.Parent())), instrPos(st),
 				"written by WriteMessage/Flush only", "the pending "+f.Name()+" is written outside WriteMessage/Flush")
+			// Flush only ever advances a pending slice by what the writer took: it never drops a record
+			// (the nonces it consumed are gone - the peer would fail every later record)
+			if st.Parent() == flush {
+				adv := false
+				if sl, ok := st.Val.(*ssa.Slice); ok && isLoadOfField(sl.X, f) && sl.High == nil && sl.Low != nil {
+					if ex, ok := sl.Low.(*ssa.Extract); ok && ex.Index == 0 {
+						if call, ok := ex.Tuple.(*ssa.Call); ok && call.Common().IsInvoke() && call.Common().Method.Name() == "Write" {
+							adv = true
+						}
+					}
+				}
+				c.decide(adv, "FLUSH", fmt.Sprintf("Flush|%s only advances by the written count|%s", f.Name(), w.canonFB(st.Val)), instrPos(st),
+					f.Name()+" = "+f.Name()+"[n:]", "Flush assigns "+w.canonFB(st.Val)+" to the pending "+f.Name()+": a record that was encrypted (nonces consumed) is dropped or replaced instead of being resumed")
+			}
 		}
 	}
 	nEnc := ruleWriteMessageGuard(c, "FLUSH", wm, hdr, body)
